@@ -458,8 +458,22 @@ func (r *rng) genCase(id string, p profile, mode, grid int) genCase {
 			if r.chance(1, 2) {
 				nw, nh = maxInt(1, w+r.n(5)-2), maxInt(1, h+r.n(5)-2)
 			}
+			around := r.chance(1, 4)
+			if around {
+				// save the cursor near the far corner first, and come back to it after the resize:
+				// the saved position is used only by the restore, the cells under it by the text
+				save := fmt.Sprintf("\x1b[%d;%dH", maxInt(1, h-r.n(2)), maxInt(1, w-r.n(2))) + r.pick("\x1b[s", "\x1b7")
+				if r.chance(1, 2) {
+					save += fmt.Sprintf("\x1b[%d;%dH", 1+r.n(h), 1+r.n(w))
+				}
+				c.ops = append(c.ops, genOp{kind: 110, data: []byte(save), label: kCsiMove})
+			}
 			c.ops = append(c.ops, genOp{kind: 111, a: nw, b: nh, label: kResize})
 			w, h = nw, nh
+			if around {
+				c.ops = append(c.ops, genOp{kind: 110, data: []byte(r.pick("\x1b[u", "\x1b8")), label: kCsiMove})
+				c.ops = append(c.ops, genOp{kind: 110, data: []byte(r.text(p.wide, w)), label: kText})
+			}
 			continue
 		}
 		if p.step {
